@@ -12,6 +12,8 @@ import solve_oracles as so
 MODULE = "DfolsVerif.Properties.C02"
 BUILD_TARGETS = ss.ACCEPT_TARGETS
 def pre_build(ctx):
+    import gen_trysites
+    gen_trysites.regenerate(ctx)
     import gen_mainccalls
     gen_mainccalls.regenerate(ctx)
     import gen_kernels
@@ -24,7 +26,7 @@ THEOREMS = [
     "Dfols.C02.C02_budget",
     "Dfols.C02.C02_result_counters",
     "Dfols.C02.C02_numbering",
-    "Dfols.C02.C02_samples", "Dfols.C02.C02_src_counters_threaded"]
+    "Dfols.C02.C02_samples", "Dfols.C02.C02_src_counters_threaded", "Dfols.C02.C02_src_objfun_choke_points"]
 TRUSTED_EXTRA = [
     "AST-to-Lean translator harness/gen_kernels.py (translate_loops): the bodies and preludes of the two sampling loops as transformers of the integer/boolean loop state; array bookkeeping (rvec_list, obj_list) is not modelled",
     "model = set of event lists accepted by CountAcc.step (hand-written mirror of solver.py:157-202, controller.py:625-659, the nf/nx threading of solve_main/solve)",
